@@ -499,7 +499,7 @@ func signL17On[P curves.Point[P, B, S], B algebra.PrimeFieldElement[B], S algebr
 		// the Lindell17 DKG (Paillier keys, LP / LPDL proofs for every MSP row and peer) costs tens of seconds: one policy per curve in
 		// the quick tier, every second policy of at most four holders in the thorough tier; the other keys come from the
 		// Lindell17 trusted dealer
-		viaDKG := pi == 0 && len(it.np.Pol.IDs) <= 3
+		viaDKG := pi == 0 && len(it.np.Pol.IDs) <= 3 && d.std == nil
 		if thor {
 			viaDKG = pi%2 == 0 && len(it.np.Pol.IDs) <= 4
 		}
